@@ -6,9 +6,11 @@ package main
 
 import (
 	"fmt"
+	"math/big"
 	"regexp"
 	"sort"
 	"strings"
+	"sync"
 )
 
 func layAtoms(l *Lay, out map[string]bool) {
@@ -138,32 +140,129 @@ func layEqual(got, want *Lay, extraFeasible func(map[string]bool) bool) (bool, s
 		names = append(names, a)
 	}
 	sort.Strings(names)
-	if len(names) > 14 {
-		return false, fmt.Sprintf("too many condition atoms (%d)", len(names)), 0
+	// atoms that are functions of one small integer parameter alone (masks of a flag byte, lookups in a
+	// constant table keyed by it) are not independent: they take exactly the joint values the parameter's
+	// values give them
+	driver, driven, vectors := drivenAtoms(names)
+	var free []string
+	for _, a := range names {
+		if !driven[a] {
+			free = append(free, a)
+		}
 	}
+	if len(free) > 14 {
+		return false, fmt.Sprintf("too many condition atoms (%d)", len(free)), 0
+	}
+	_ = driver
 	n := 0
-	for mask := 0; mask < 1<<len(names); mask++ {
-		val := map[string]bool{}
-		for i, a := range names {
-			val[a] = mask&(1<<i) != 0
-		}
-		if !feasible(val) || (extraFeasible != nil && !extraFeasible(val)) {
-			continue
-		}
-		n++
-		g, err := resolve(got, val)
-		if err != nil {
-			return false, "code layout: " + err.Error() + " under " + valString(val), n
-		}
-		w, err := resolve(want, val)
-		if err != nil {
-			return false, "specification layout: " + err.Error() + " under " + valString(val), n
-		}
-		if g.String() != w.String() {
-			return false, fmt.Sprintf("under %s the code serialises %s but the specification is %s", valString(val), firstDiff(g, w), ""), n
+	for _, vec := range vectors {
+		for mask := 0; mask < 1<<len(free); mask++ {
+			val := map[string]bool{}
+			for a, v := range vec {
+				val[a] = v
+			}
+			for i, a := range free {
+				val[a] = mask&(1<<i) != 0
+			}
+			if !feasible(val) || (extraFeasible != nil && !extraFeasible(val)) {
+				continue
+			}
+			n++
+			g, err := resolve(got, val)
+			if err != nil {
+				return false, "code layout: " + err.Error() + " under " + valString(val), n
+			}
+			w, err := resolve(want, val)
+			if err != nil {
+				return false, "specification layout: " + err.Error() + " under " + valString(val), n
+			}
+			if g.String() != w.String() {
+				return false, fmt.Sprintf("under %s the code serialises %s but the specification is %s", valString(val), firstDiff(g, w), ""), n
+			}
 		}
 	}
 	return true, "", n
+}
+
+// atomTerms: the term behind each condition atom the evaluators print (atoms are compared as strings).
+var atomTerms sync.Map
+
+func registerAtom(s string, t *T) {
+	if t != nil {
+		atomTerms.LoadOrStore(s, t)
+	}
+}
+
+// drivenAtoms: among the atoms, those whose term depends on one integer parameter only, all on the same
+// one, comparing it (masked, shifted, looked up) with constants below 256; and the distinct joint truth
+// assignments they take as that parameter runs over 0..255. With no such atoms: one empty assignment.
+func drivenAtoms(names []string) (string, map[string]bool, []map[string]bool) {
+	byDriver := map[string][]string{}
+	for _, a := range names {
+		tv, ok := atomTerms.Load(a)
+		if !ok {
+			continue
+		}
+		t := tv.(*T)
+		bt := map[string]*T{}
+		baseTerms(t, bt)
+		if len(bt) != 1 {
+			continue
+		}
+		for k, b := range bt {
+			if b.K != "param" || b.Typ == nil || !isIntType(b.Typ) {
+				continue
+			}
+			cs := map[string]*big.Int{}
+			collectConsts(t, cs)
+			small := true
+			for _, v := range cs {
+				if v.Sign() < 0 || v.Cmp(big.NewInt(256)) >= 0 {
+					small = false
+				}
+			}
+			if _, ok := evalTerm(t, map[string]*big.Int{k: big.NewInt(0)}); ok && small {
+				byDriver[k] = append(byDriver[k], a)
+			}
+		}
+	}
+	best := ""
+	for k, as := range byDriver {
+		if len(as) > len(byDriver[best]) || (len(as) == len(byDriver[best]) && k < best) {
+			best = k
+		}
+	}
+	if best == "" {
+		return "", map[string]bool{}, []map[string]bool{{}}
+	}
+	driven := map[string]bool{}
+	for _, a := range byDriver[best] {
+		driven[a] = true
+	}
+	seen := map[string]bool{}
+	var vectors []map[string]bool
+	for v := int64(0); v < 256; v++ {
+		vec := map[string]bool{}
+		key := ""
+		for _, a := range byDriver[best] {
+			tv, _ := atomTerms.Load(a)
+			x, ok := evalTerm(tv.(*T), map[string]*big.Int{best: big.NewInt(v)})
+			if !ok {
+				continue
+			}
+			vec[a] = x.Sign() != 0
+			if vec[a] {
+				key += "1"
+			} else {
+				key += "0"
+			}
+		}
+		if !seen[key] {
+			seen[key] = true
+			vectors = append(vectors, vec)
+		}
+	}
+	return best, driven, vectors
 }
 
 func valString(val map[string]bool) string {
